@@ -17,6 +17,11 @@
 (*   "RawEOLKept"  raw CR / CR LF inside ( ) is copied, not turned into LF *)
 (*   "NulNotDelim" NUL (white space in ISO 32000-1 table 1) does not end a *)
 (*                 name or keyword                                         *)
+(*   "EscCharDropped" a backslash before a character that needs no escape  *)
+(*                 (`\d`) drops the character too; 7.3.4.2: only the       *)
+(*                 backslash is ignored                                    *)
+(*   "LitHexEOFLost" a name whose last bytes are a #xx escape is lost when *)
+(*                 the input ends right after it                           *)
 (***************************************************************************)
 EXTENDS Integers, Sequences, FiniteSets
 
@@ -159,7 +164,9 @@ SString1(s, D, dev) ==
                       !.p = IF s.p + 1 < s.e /\ D[s.p + 2] = 10 THEN s.p + 2 ELSE s.p + 1]
        ELSE \* CR is the last byte of the buffer: the LF is looked for after the refill
             [s EXCEPT !.st = "stringlf", !.p = s.p + 1]
-  ELSE [s EXCEPT !.st = "string", !.p = s.p + 1]
+  ELSE IF c = 10 \/ "EscCharDropped" \in dev
+  THEN [s EXCEPT !.st = "string", !.p = s.p + 1]                 \* `\ LF`: a line continuation
+  ELSE [s EXCEPT !.cur = Append(s.cur, c), !.st = "string", !.p = s.p + 1]   \* the backslash is ignored, the character stays
 
 \* _parse_string_lf: the LF of a `\ CR LF` continuation split across buffers
 SStringLF(s, D) ==
@@ -186,6 +193,8 @@ SHexStr(s, D, dev) ==
 Flush(s, dev) ==
   [s EXCEPT !.phase = "done",
      !.out = CASE s.st = "literal" -> Emit(s, "lit", s.cur)
+               [] s.st = "lithex" /\ "LitHexEOFLost" \notin dev
+                                   -> Emit(s, "lit", IF s.hex # <<>> THEN Append(s.cur, HexNum(s.hex)) ELSE s.cur)
                [] s.st = "number"  -> IF HasDigit(s.cur) THEN Emit(s, "int", s.cur) ELSE s.out
                [] s.st = "float"   -> IF HasDigit(s.cur) THEN Emit(s, "real", s.cur) ELSE s.out
                [] s.st = "keyword" -> Emit(s, "kw", s.cur)
